@@ -460,6 +460,28 @@ let op_rules (args : str list) : str list =
   [ show (rule_const_init fs); show (rule_const_not_fb fs); show (rule_global_const fs); show (rule_task fs);
     show (rule_enum_value fs); show (rule_fb_call fs); show (rule_stdlib fs) ]
 
+(* the three rules on type declarations: one fact per argument (see harness op `declfacts`) -> per rule (structure elements,
+   enumeration values, subrange limits) "-" or diagnostics "code@s-e@s-e@.." (primary label, then the secondary ones) *)
+let span_of (w : str) = match S.split_on_char '-' w with
+  | [a; b] -> (pos_of_dec a, pos_of_dec b)
+  | _ -> failwith ("bad span " ^ w)
+let item_of (w : str) : nitem = match S.split_on_char '@' w with
+  | [n; a; b] -> { i_name = text_of_hex n; i_id = span_of a; i_node = span_of b }
+  | _ -> failwith ("bad item " ^ w)
+let items_of (w : str) = if w = "" then [] else List.map item_of (S.split_on_char ':' w)
+let declfact_of (w : str) : tyfact =
+  match S.split_on_char ',' w with
+  | ["ST"; nm; els] -> TyStruct (span_of nm, items_of els)
+  | ["EV"; vs] -> TyEnum (items_of vs)
+  | ["SR"; ln; lm; ls; hn; hm; hs] -> TySub ((ln = "1", pos_of_dec lm), (hn = "1", pos_of_dec hm), span_of ls, span_of hs)
+  | _ -> failwith ("bad declaration fact " ^ w)
+let op_declrules (args : str list) : str list =
+  let fs = List.map declfact_of (List.filter (fun w -> w <> "") args) in
+  let sp (a, b) = dec_of_n a ^ "-" ^ dec_of_n b in
+  let show ds = if ds = [] then "-" else
+    S.concat " " (List.map (fun d -> S.concat "@" (dec_of_n d.ld_code :: sp d.ld_primary :: List.map sp d.ld_secondary)) ds) in
+  [ show (rule_struct_unique fs); show (rule_enum_unique fs); show (rule_subrange_limits fs) ]
+
 (* the late-bound type initializer transformation: one type fact per argument (see harness op `latebound`) ->
    ok <kinds separated by blanks> | err <code@pos ..> *)
 let ikind_of = function
@@ -612,7 +634,7 @@ let op_lib2render (args : str list) : str list =
 
 let ops : (str * (str list -> str list)) list ref =
   ref [ ("lex", op_lex); ("semtok", op_semtok); ("decode", op_decode); ("lit", op_lit); ("cycle", op_cycle);
-        ("lsp", op_lsp); ("cli", op_cli); ("rule", op_rule); ("expr", op_expr); ("scope", op_scope); ("stmts", op_stmts); ("strender", op_strender); ("rules", op_rules); ("latebound", op_latebound); ("fbd", op_fbd); ("fbdrender", op_fbdrender); ("lib", op_lib); ("lib2", op_lib2); ("lib2render", op_lib2render); ("exprkind", op_exprkind); ("datadecl", op_datadecl) ]
+        ("lsp", op_lsp); ("cli", op_cli); ("rule", op_rule); ("expr", op_expr); ("scope", op_scope); ("stmts", op_stmts); ("strender", op_strender); ("rules", op_rules); ("latebound", op_latebound); ("fbd", op_fbd); ("fbdrender", op_fbdrender); ("lib", op_lib); ("lib2", op_lib2); ("lib2render", op_lib2render); ("exprkind", op_exprkind); ("datadecl", op_datadecl); ("declrules", op_declrules) ]
 
 
 let () =
